@@ -575,6 +575,15 @@ BarrierPass == /\ IsEvent("BarrierPass") /\ Held = {}
                /\ notes' = [notes EXCEPT !.bp = @ + 1]
                /\ UNCHANGED <<conc, push, mem, units, rq, used, running, stopped, pend, causes, cancelOK, hcanc, cbs, waitRet, rdDone, sendBad, stopOpen>>
 
+\* Everything that can move without the channel operation the scenario holds (a Send or a Close in progress, its
+\* caller possibly holding the server's lock) has moved.  Starting a dispatched request needs neither: the limit on
+\* concurrency stays work conserving while a reply is on its way out (C06; C03 for what waits behind nothing but a slot).
+QuiescentOp ==
+  /\ IsEvent("QuiescentOp")
+  /\ ("C06" \in Enforce \/ "C03" \in Enforce) =>
+        ~(\E t \in DOMAIN mem : Startable(t) /\ Cardinality(running) < conc)
+  /\ UNCHANGED <<conc, push, mem, units, rq, used, running, stopped, pend, causes, cancelOK, hcanc, cbs, notes, waitRet, rdDone, sendBad, stopOpen>>
+
 \* events that carry no obligation for this contract
 Ignored == /\ l <= Len(Trace) /\ Ev.ev \in {"PeerClose", "Teardown", "SB", "SE", "RB", "RE", "CB", "CE", "Drift"}
            /\ l' = l + 1
@@ -589,7 +598,7 @@ Terminal == /\ l <= Len(Trace) /\ Ev.ev \in {"Crash", "Deadlock", "Leak"}
 Next == \/ Reset \/ Start \/ RecvMsg \/ Enqueue \/ Dequeue \/ Dispatch \/ HStart \/ HCancel \/ HExit
         \/ SendOK \/ SendFailed \/ StopB \/ StopE \/ RecvErr \/ ChClose \/ CancelB \/ CancelE \/ BaseEnd
         \/ NotifyB \/ NotifyE \/ CallbackB \/ CtxEnd \/ CallbackE \/ WaitStatus \/ Quiescent
-        \/ SendFailArmed \/ Final \/ BarrierPass \/ Ignored \/ Terminal
+        \/ SendFailArmed \/ Final \/ BarrierPass \/ Ignored \/ Terminal \/ QuiescentOp
 
 Spec == Init /\ [][Next]_vars
 
